@@ -169,12 +169,12 @@ func NewSingleHostReverseProxy(target *url.URL, without string, keepalive int, t
 
 		// remove the `without` prefix
 		if without != "" {
-			req.URL.Path = strings.TrimPrefix(req.URL.Path, without)
+			req.URL.Path = trimPathPrefix(req.URL.Path, without)
 			if req.URL.Opaque != "" {
-				req.URL.Opaque = strings.TrimPrefix(req.URL.Opaque, without)
+				req.URL.Opaque = trimPathPrefix(req.URL.Opaque, without)
 			}
 			if req.URL.RawPath != "" {
-				req.URL.RawPath = strings.TrimPrefix(req.URL.RawPath, without)
+				req.URL.RawPath = trimPathPrefix(req.URL.RawPath, without)
 			}
 		}
 
@@ -746,6 +746,19 @@ func getTransportDialTLS(t *http.Transport) func(network, addr string) (net.Conn
 
 		return tlsConn, nil
 	}
+}
+
+// trimPathPrefix removes prefix from the beginning of p. Like the matching
+// of request paths against the proxied path it disregards letter case
+// unless paths are configured to be case-sensitive.
+func trimPathPrefix(p, prefix string) string {
+	if httpserver.CaseSensitivePath {
+		return strings.TrimPrefix(p, prefix)
+	}
+	if len(p) >= len(prefix) && strings.EqualFold(p[:len(prefix)], prefix) {
+		return p[len(prefix):]
+	}
+	return p
 }
 
 // stripPort returns address without its port if it has one and
